@@ -94,7 +94,8 @@ def oracle_core(pid, case, accepted, set_ok, set_errs, solve_errs, calls, sig=No
         elif pid == "C10":
             seen_t, _, _ = spec.needed(tree, given, out)
             bad_vals = [v["id"] for x in spec.all_sets(tree) for v in x["values"] if v.get("unexported") and v["out"] in seen_t]
-            if not miss and not unused and not needs and not bad_vals and not accepted:
+            bad_provs = [p["id"] for x in spec.all_sets(tree) for p in x["providers"] if p.get("unexp") and (set(p["outs"]) & seen_t)]
+            if not miss and not unused and not needs and not bad_vals and not bad_provs and not accepted:
                 out_msgs.append("well-formed program rejected: %s" % (set_errs + solve_errs + list(inject_errs)))
         elif pid == "C09":
             dup_params = [p["id"] for x in spec.all_sets(tree) for p in x["providers"] if len(set(p["args"])) != len(p["args"])]
@@ -408,7 +409,7 @@ PROPS = {
             "assumptions": ["result kinds are abstracted to what funcOutput can distinguish (identity with error / func())"]},
     "C10": {"theorems": ["C10_analysis_order_independent", "C10_solve_depends_on_lookups_only", "C10_phase_order_independent", "C05_never_picks"], "engines": [eng_synth, eng_prog, eng_multi, eng_layouts], "assumptions": [SYNTH_NOTE]},
     "C11": {"theorems": ["C11_colocated", "C11_shared_instance", "C02_wiring_accepted"], "engines": [eng_synth, eng_prog, eng_forms], "assumptions": [SYNTH_NOTE, "Go's method-set rule (types.Implements) is go/types' and is not modelled"]},
-    "C12": {"theorems": ["C12_check_field_sound", "C12_star_selects_unprevented", "C12_struct_provider_outputs"], "engines": [eng_prog, eng_forms],
+    "C12": {"theorems": ["C12_check_field_sound", "C12_star_selects_unprevented", "C12_struct_provider_outputs"], "engines": [eng_prog, eng_forms, eng_layouts],
             "assumptions": ["field names are ASCII; strconv.Quote and strings.EqualFold are modelled on ASCII identifiers", "FieldsOf name resolution shares checkField; its front end is exercised through the binary only"]},
     "C13": {"theorems": ["C13_whitelist_sound", "C13_whitelist_complete"], "engines": [eng_valuetable, eng_forms, eng_copyprobe, eng_prog, eng_layouts],
             "assumptions": ["expression trees are abstracted to the node kinds processValue distinguishes; the mapping from Go syntax to kinds is the table's (hand-written per form)",
@@ -425,7 +426,7 @@ PROPS = {
             "engines": [eng_cli], "assumptions": ["partial: OS write semantics are modelled as whole-file replace, tied by before/after tree hashes", "per-package Generate results are inputs of the command model"]},
     "C18": {"level_text": "Machine-checked proof in Coq 8.16.1 over an executable model tied to the code by a per-run correspondence; the history machine is proved under the hypothesis that analysis depends on current sources only, which the histories test against the binary (partial).", "theorems": ["C18_history_independent", "C18_failed_gen_untouched", "C17_diff_readonly"], "engines": [eng_cli],
             "assumptions": ["partial: that analysis is a function of the current sources (files constrained !wireinject are invisible under -tags=wireinject) is the section hypothesis content_of; it is exactly what the histories test against the binary"]},
-    "C19": {"theorems": ["C19_check_iff_gen", "C19_show_groups_by_needed_inputs", "C19_show_lists_included_sets", "C05_never_picks"], "engines": [eng_cli, eng_prog, eng_show],
+    "C19": {"theorems": ["C19_check_iff_gen", "C19_show_groups_by_needed_inputs", "C19_show_lists_included_sets", "C05_never_picks"], "engines": [eng_cli, eng_prog, eng_show, eng_layouts],
             "assumptions": ["the `show` grouping is checked on the binary's output against the property's wording, its stack machine (gather) is not modelled in Coq"]},
     "C20": {"level_text": "Machine-checked proof in Coq 8.16.1 over an executable model tied to the code by a per-run correspondence; the modelled rules are total functions and zeroValue/funcOutput tables are regenerated and re-proved each run; crash-freedom of the front end's pattern recognition rests on 94 enumerated spellings through the binary (partial).", "theorems": ["C09_results", "C12_check_field_sound", "C07_terminates"], "engines": [eng_forms, eng_zerovalue, eng_funcoutput, eng_multi],
             "assumptions": ["partial: the front end's pattern recognition of marker-call arguments is not modelled in Coq; the crash-freedom claim for it rests on the enumerated spellings through the binary",
